@@ -276,5 +276,5 @@ def parts(tier):
     return [Part("table", prop_table, enum=enum_table, exhaustive=True, quick_shards=4,
                  note="complete enumeration of the E-line classification table and of L/C/G orientation pairs"),
             Part("graphs", prop_graph, strategy=st_graph(), n=n, quick_shards=2),
-            Part("hist-gfa1", prop_hist, strategy=st_hist("gfa1"), n=80 if tier == "quick" else 400),
-            Part("hist-gfa2", prop_hist, strategy=st_hist("gfa2"), n=80 if tier == "quick" else 400)]
+            Part("hist-gfa1", prop_hist, strategy=st_hist("gfa1"), n=200 if tier == "quick" else 800, quick_shards=2),
+            Part("hist-gfa2", prop_hist, strategy=st_hist("gfa2"), n=200 if tier == "quick" else 800, quick_shards=2)]
